@@ -105,22 +105,31 @@ func init() {
 				inter, unord := m&1 != 0, m&2 != 0
 				key := fmt.Sprintf("rollback:interleaving=%v,unordered=%v", inter, unord)
 				// consumption
+				// the fragment loop is unrolled 0, 1 and 2 times per path (PEval's loop bound); a message
+				// always has at least one fragment, and every path must consume the same counters
 				outsP, und := c.P.PEval(pk, PEConfig{Params: map[int]constant.Value{2: constant.MakeInt64(51)},
-					Fields: map[*types.Var]constant.Value{uI: b(inter), su: b(unord)},
-					BindVal: func(v ssa.Value) (constant.Value, bool) {
-						if bo, ok := v.(*ssa.BinOp); ok && bo.Op == token.NEQ && IsConstInt(0)(bo.Y) {
-							if _, isPhi := bo.X.(*ssa.Phi); isPhi {
-								return b(false), true // fragment loop: counters do not depend on it
-							}
-						}
-						return nil, false
-					}})
-				if und != "" || len(outsP) != 1 {
+					Fields: map[*types.Var]constant.Value{uI: b(inter), su: b(unord)}, LoopBound: 1,
+					Opaque: map[*ssa.Function]bool{c.Fn("min32"): true}})
+				if und != "" || len(outsP) == 0 {
 					c.Fail(key, c.P.Pos(pk.Pos()), fmt.Sprintf("UNDECIDED (packetize): %s, %d paths", und, len(outsP)))
 					continue
 				}
 				consumed := storedSet(outsP[0])
-				if !outsP[0].Stored[ba] {
+				agree, charged := true, true
+				for _, o := range outsP {
+					if storedSet(o) != consumed {
+						agree = false
+						consumed += " / " + storedSet(o)
+					}
+					if !o.Stored[ba] {
+						charged = false
+					}
+				}
+				if !agree {
+					c.Fail(key, c.P.Pos(pk.Pos()), "packetize consumes different counters depending on the number of fragments: {"+consumed+"}")
+					continue
+				}
+				if !charged {
 					c.Fail(key, c.P.Pos(pk.Pos()), "packetize does not charge bufferedAmount")
 					continue
 				}
